@@ -221,7 +221,7 @@ double SimpleDiscreteDistribution::qProb(double x) const
     if (x2 < 0)
       return s;
     else
-      s = it->second;
+      s = it->first;
   }
 
   return s;
